@@ -54,6 +54,9 @@ def tree():
         "src/bare31.js": js("bareJs", 31).rstrip("\n"),
         "bare61.py": py("bare_big", 61).rstrip("\n"),
         # suppression markers: scan omits these functions, so must check
+        # classic-Mac line ends (bare CR): text-mode reading turns them into newlines, reading the bytes does not
+        "mac.py": ("# legacy header\n" + py("legacy_fn", 34)).replace("\n", "\r").encode(),
+        "mixed.js": ("// a\r\n" + js("mixedJs", 36)).replace("\n", "\r\n").encode(),
         "marked.py": py("kept_fn", 35) + "\n" + py("silenced_fn", 61).replace("def silenced_fn():", "def silenced_fn():  # nocl: generated"),
         "src/marked.js": js("keptJs", 33) + "\n" + js("silencedJs", 62).replace("function silencedJs() {", "function silencedJs() { // NOCL"),
     }
@@ -74,7 +77,12 @@ def is_hidden(rel):
 
 
 def setup(root: Path, excl):
+    import os
+
     harness.write_files(root, tree())
+    # two directory entries for one file: a symbolic link next to its target, and one in another folder
+    os.symlink("long.py", str(root / "alias_long.py"))
+    os.symlink("../long.py", str(root / "src" / "linked_long.py"))
     if excl == "gitignore":
         (root / ".gitignore").write_text("gen/\n")
     if excl == "gitignore-negation":
@@ -162,7 +170,9 @@ def eval_invocation(args, excl):
             pa = Path(a)
             if not pa.is_absolute():
                 pa = root / pa
-            added_rel.append(str(pa.resolve().relative_to(root.resolve())))
+            import os
+
+            added_rel.append(os.path.relpath(os.path.normpath(str(pa)), str(root)))  # never resolve: a symlink is its own entry
         # clause: excluded / hidden files are absent
         for rel in sorted(set(added_rel) | set(rows)):
             if rel in must or rel in may:
@@ -192,7 +202,7 @@ def eval_invocation(args, excl):
 
 
 def invocations():
-    files = sorted(tree())
+    files = sorted(tree()) + ["alias_long.py", "src/linked_long.py"]
     dirs = all_dirs()
     singles = [[("rel", f)] for f in files] + [[("rel", d)] for d in dirs] + [[("abs", d)] for d in dirs]
     pairs = []
